@@ -180,6 +180,10 @@ func newlineTests(c *Ctx, rule string, fns []string) {
 			}
 			return true
 		})
+		if found == 0 && rule == "C11.i" {
+			// other shapes of the same test (a flag variable, an index loop over the clusters ...): c11text.go
+			found = c11NewlineTestAnyShape(c, rule, name, fi)
+		}
 		if found == 0 {
 			c.undecided(rule, name+"/newline test", fi.Decl.Pos(), "no newline test on the clusters of vaxis.Characters found")
 		}
